@@ -1068,6 +1068,56 @@ def construction_state(ctx):
     return bad
 
 
+def shared_mapping(ctx):
+    """Two sensor caches (own lock, own dump timestamps) built over ONE mapping of sensor getters, each used by its own
+    thread: what a thread obtains is the single-thread value for ITS cache whatever the other cache extracted first,
+    and the caller's mapping still holds the getters."""
+    import threading
+    from katdal.sensordata import SensorCache, SensorGetter, SimpleSensorGetter
+    bad = []
+    for order in ((0, 1), (1, 0)):
+        raw = {'temp': SimpleSensorGetter('temp', np.array([0.0, 10.0, 20.0]), np.array([5.0, 25.0, 15.0])),
+               'mode': SimpleSensorGetter('mode', np.array([1.0, 12.0]), np.array(['idle', 'track']))}
+        grids = [np.arange(0.0, 10.0, 2.0), np.arange(10.0, 20.0, 2.0)]
+        want = []
+        for g in grids:
+            fresh = SensorCache(dict(raw), g, 2.0)
+            want.append((np.asarray(fresh.get('temp')).tolist(), [str(x) for x in fresh.get('mode')]))
+        caches = [SensorCache(raw, g, 2.0) for g in grids]
+        got, errs = [None, None], [None, None]
+        turn = [threading.Event(), threading.Event()]
+
+        def work(i):
+            try:
+                turn[i].wait(10)
+                got[i] = (np.asarray(caches[i].get('temp')).tolist(), [str(x) for x in caches[i].get('mode')])
+            except Exception as e:   # noqa: BLE001
+                errs[i] = e
+            finally:
+                turn[1 - i].set()
+        ths = [threading.Thread(target=work, args=(i,)) for i in range(2)]
+        for t in ths:
+            t.start()
+        turn[order[0]].set()
+        for t in ths:
+            t.join(20)
+        what = None
+        for i in range(2):
+            if errs[i] is not None:
+                what = f'cache {i} over a shared mapping raised {type(errs[i]).__name__}: {str(errs[i])[:80]}'
+            elif got[i] != want[i]:
+                what = (f'two caches over one mapping of getters, cache {order[0]} first: cache {i} returns {got[i][0][:3]}..., '
+                        f'a single thread with that cache alone obtains {want[i][0][:3]}... (it was handed what the other '
+                        f'cache extracted for other dumps)')
+        if what is None and not all(isinstance(v, SensorGetter) for v in raw.values()):
+            what = 'the mapping handed to the caches no longer holds the sensor getters (extraction results were stored in it)'
+        ctx.tag('shared-mapping')
+        ctx.count(('shared-mapping', order), True, sample={'object': 'two-caches-one-mapping'})
+        if what:
+            bad.append((dict(object='session-privacy', check='shared-mapping', order=list(order)), what))
+    return bad
+
+
 def session_privacy(ctx):
     """The hypothesis of `pool_session_state_private` (Props/C20.lean): the mutable per-request state of a borrowed
     S3 session (the transport adapter whose `max_retries` S3ChunkStore.request() sets before sending) belongs to that
@@ -1187,6 +1237,8 @@ def run(ctx):
     for case, what in bucket_claim(ctx):
         ctx.violation(case, what)
     for case, what in construction_state(ctx):
+        ctx.violation(case, what)
+    for case, what in shared_mapping(ctx):
         ctx.violation(case, what)
     ctx.assumptions = ['one source line of the anchored methods is the unit of interleaving',
                        'a transition observed between two yield points may bundle up to %d model steps of the '
